@@ -111,8 +111,18 @@ class TasksRun:
                 await anyio.sleep(step["d"] * TICK)
             elif op == "start":
                 stop = anyio.Event()
-                await owner.start_service_task(self.make_body(step, stop), f"task{step['tid']}",
-                                               teardown_action=self.make_action(step, stop))
+                if step.get("from_nested"):
+                    # started through the owner while another (nested) context is current: the task's
+                    # context must still inherit from the owner, not from the caller's current context
+                    from asphalt.core import Context
+
+                    async with Context() as inner:
+                        inner.add_resource(TYPES[0](900 + step["tid"]), f"inner{step['tid']}")
+                        await owner.start_service_task(self.make_body(step, stop), f"task{step['tid']}",
+                                                       teardown_action=self.make_action(step, stop))
+                else:
+                    await owner.start_service_task(self.make_body(step, stop), f"task{step['tid']}",
+                                                   teardown_action=self.make_action(step, stop))
         await anyio.sleep(self.case["exit_at"] * TICK)
         self.log("exitBegin")
 
